@@ -9,25 +9,22 @@ open Rustbus Rustbus.Bytes Rustbus.Header
 theorem msgs_cons (r : Res) (tr : List Res) : msgs (r :: tr) = msgs [r] ++ msgs tr := by
   cases r <;> simp [msgs]
 
-/-- no raw `read_once`: the client only uses `get_next_message` and the guarded `read_once` -/
-def NoRaw (acts : List Action) : Prop := ∀ evs, Action.call .readOnce evs ∉ acts
-
 theorem run_inv : ∀ (acts : List Action) (todo : List Frame) (st : State) (w : World),
-    Inv todo st w → FramesOk todo → ∀ tr st' w', run st w acts = (tr, st', w') → Res.closed ∉ tr →
+    Inv todo st w → FramesOk todo → ∀ tr st' w', run st w acts = (tr, st', w') →
     ∃ todo', Inv todo' st' w' ∧ FramesOk todo' ∧ todo = msgs tr ++ todo' ∧ ∀ r ∈ tr, r.good = true := by
   intro acts
   induction acts with
   | nil =>
-    intro todo st w hI hok tr st' w' h _
+    intro todo st w hI hok tr st' w' h
     simp only [run, Prod.mk.injEq] at h
     obtain ⟨rfl, rfl, rfl⟩ := h
     exact ⟨todo, hI, hok, by simp [msgs], by simp⟩
   | cons a acts ih =>
-    intro todo st w hI hok tr st' w' h hnc
+    intro todo st w hI hok tr st' w' h
     cases a with
     | arrive n =>
       simp only [run] at h
-      exact ih todo st (w.arrive n) (arrive_inv hI n) hok tr st' w' h hnc
+      exact ih todo st (w.arrive n) (arrive_inv hI n) hok tr st' w' h
     | call c evs =>
       simp only [run] at h
       cases hs : step c st w evs with
@@ -42,10 +39,8 @@ theorem run_inv : ∀ (acts : List Action) (todo : List Frame) (st : State) (w :
               rw [hr] at h
               simp only [Prod.mk.injEq] at h
               obtain ⟨rfl, rfl, rfl⟩ := h
-              have hrc : r ≠ .closed := fun hh => hnc (by simp [hh])
-              obtain ⟨todo1, hI1, hok1, ht1, hg1⟩ := (step_inv hI hok hs).2 hrc
-              obtain ⟨todo2, hI2, hok2, ht2, hg2⟩ :=
-                ih todo1 st1 w1 hI1 hok1 tr1 _ _ hr (fun hh => hnc (by simp [hh]))
+              obtain ⟨todo1, hI1, hok1, ht1, hg1⟩ := step_inv hI hok hs
+              obtain ⟨todo2, hI2, hok2, ht2, hg2⟩ := ih todo1 st1 w1 hI1 hok1 tr1 _ _ hr
               refine ⟨todo2, hI2, hok2, ?_, ?_⟩
               · rw [msgs_cons, ht1, ht2, List.append_assoc]
               · intro x hx
@@ -54,49 +49,33 @@ theorem run_inv : ∀ (acts : List Action) (todo : List Frame) (st : State) (w :
                 · exact hg1
                 · exact hg2 x hx
 
-theorem run_noRaw : ∀ (acts : List Action) (todo : List Frame) (st : State) (w : World),
-    Inv todo st w → FramesOk todo → NoRaw acts → ∀ tr st' w', run st w acts = (tr, st', w') →
-    Res.closed ∉ tr := by
+/-- no call of any history reports `ConnectionClosed`: ANY start state, ANY stream (also malformed frames) -/
+theorem run_ne_closed : ∀ (acts : List Action) (st : State) (w : World), Res.closed ∉ (run st w acts).1 := by
   intro acts
   induction acts with
-  | nil =>
-    intro todo st w _ _ _ tr st' w' h
-    simp only [run, Prod.mk.injEq] at h
-    obtain ⟨rfl, _, _⟩ := h
-    simp
+  | nil => intro st w; simp [run]
   | cons a acts ih =>
-    intro todo st w hI hok hnr tr st' w' h
-    have hnr' : NoRaw acts := fun evs hm => hnr evs (List.mem_cons_of_mem _ hm)
+    intro st w
     cases a with
-    | arrive n =>
-      simp only [run] at h
-      exact ih todo st (w.arrive n) (arrive_inv hI n) hok hnr' tr st' w' h
+    | arrive n => simp only [run]; exact ih st _
     | call c evs =>
-      simp only [run] at h
-      cases hs : step c st w evs with
+      simp only [run]
+      have hs := step_ne_closed c st w evs
+      cases hx : step c st w evs with
       | mk r p =>
         cases p with
         | mk st1 w1 =>
-          rw [hs] at h
+          rw [hx] at hs
+          have := ih st1 w1
           cases hr : run st1 w1 acts with
           | mk tr1 q =>
             cases q with
             | mk st2 w2 =>
-              rw [hr] at h
-              simp only [Prod.mk.injEq] at h
-              obtain ⟨rfl, rfl, rfl⟩ := h
-              have hstep := step_inv hI hok hs
-              have hrc : r ≠ .closed := by
-                intro hh
-                have := (hstep.1 hh).1
-                subst this
-                exact hnr evs (by simp)
-              obtain ⟨todo1, hI1, hok1, _, _⟩ := hstep.2 hrc
-              have := ih todo1 st1 w1 hI1 hok1 hnr' tr1 _ _ hr
+              rw [hr] at this
               intro hm
               simp only [List.mem_cons] at hm
               rcases hm with hm | hm
-              · exact hrc hm.symm
+              · exact hs hm.symm
               · exact this hm
 
 /-! ### conservation: every byte and descriptor of the remaining frames is in the buffer or still unread -/
@@ -222,7 +201,7 @@ theorem readWhole_nil_world {st st' : State} {w w' : World} {r : Res}
   cases hc : check st with
   | whole => rw [hc] at h; simp only [Prod.mk.injEq] at h; exact h.2.2.symm
   | err e => rw [hc] at h; simp only [Prod.mk.injEq] at h; exact h.2.2.symm
-  | need n => rw [hc] at h; simp only [refill_k0, Prod.mk.injEq] at h; exact h.2.2.symm
+  | need n => rw [hc] at h; simp only [refill_k0 (check_need_lt hc), Prod.mk.injEq] at h; exact h.2.2.symm
 
 /-- with something queued, a `recvmsg` answered with one byte takes exactly one byte -/
 theorem getNext_one {todo : List Frame} {st : State} {w : World}
@@ -233,14 +212,7 @@ theorem getNext_one {todo : List Frame} {st : State} {w : World}
   by_cases hwh : st.buf.length = (hd todo).bytes.length ∧ todo ≠ []
   · rw [if_pos hwh] at hc; exact absurd hc hw
   · rw [if_neg hwh] at hc
-    have hlt : st.buf.length < (if st.buf.length < 16 then 16 else (hd todo).bytes.length) := by
-      have := hI.le
-      split
-      · assumption
-      · by_cases hne : todo = []
-        · subst hne; rw [hd_nil_len] at this; omega
-        · have : st.buf.length ≠ (hd todo).bytes.length := fun hh => hwh ⟨hh, hne⟩
-          omega
+    have hlt := check_need_lt hc
     generalize hnd : (if st.buf.length < 16 then 16 else (hd todo).bytes.length) = nd at hc hlt
     -- the one recvmsg
     have hreq : 0 < (reserve st nd).cap - st.buf.length := by
@@ -266,7 +238,8 @@ theorem getNext_one {todo : List Frame} {st : State} {w : World}
       | cons _ _ => simp
     have hrf : ∃ st1, refill st (w.arrive 1) nd 1 =
         (.readOk, st1, { rest := w.rest.drop 1, avail := min (w.avail + 1) w.rest.length - 1 }) := by
-      simp only [refill, hrecv, hne1]
+      rw [refill_read (by omega)]
+      simp only [hrecv, hne1]
       exact ⟨_, rfl⟩
     obtain ⟨st1, hrf⟩ := hrf
     have hfin : w'.rest = w.rest.drop 1 := by
@@ -340,7 +313,9 @@ theorem reserve_idem (st : State) (nd : Nat) : reserve (reserve st nd) nd = rese
 
 theorem refill_timedOut {st st' : State} {w w' : World} {nd k : Nat}
     (h : refill st w nd k = (.timedOut, st', w')) : st' = reserve st nd ∧ w' = w := by
-  simp only [refill] at h
+  by_cases hfull : nd ≤ st.buf.length
+  · rw [refill_full hfull] at h; simp at h
+  rw [refill_read hfull] at h
   cases hr : recvmsg w ((reserve st nd).cap - st.buf.length) k with
   | mk ans w1 =>
     rw [hr] at h
@@ -353,9 +328,11 @@ theorem refill_timedOut {st st' : State} {w w' : World} {nd k : Nat}
       dsimp only at h
       split at h <;> simp at h
 
-theorem refill_after_timeout (st : State) (w : World) (nd k : Nat) :
+theorem refill_after_timeout {st : State} {nd : Nat} (hlt : st.buf.length < nd) (w : World) (k : Nat) :
     refill (reserve st nd) w nd k = refill st w nd k := by
-  simp only [refill, reserve_idem]
+  have hb : (reserve st nd).buf = st.buf := rfl
+  have hfull : ¬ nd ≤ st.buf.length := by omega
+  rw [refill_read (by rw [hb]; exact hfull), refill_read hfull, reserve_idem, hb]
   rfl
 
 theorem check_need_bytes {st : State} {nd : Nat} (h : check st = .need nd) :
@@ -383,25 +360,25 @@ theorem readWhole_reserve {nd : Nat} : ∀ (evs : List Ev) (st : State) (w : Wor
   induction evs with
   | nil =>
     intro st w hc
-    simp only [readWhole, check_reserve, hc, refill_after_timeout]
+    simp only [readWhole, check_reserve, hc, refill_after_timeout (check_need_lt hc)]
   | cons e evs ih =>
     intro st w hc
     cases e with
     | arrive a => simp only [readWhole, check_reserve, hc]; exact ih st _ hc
-    | wouldBlock => simp only [readWhole, check_reserve, hc, refill_after_timeout]
-    | deliver k => simp only [readWhole, check_reserve, hc, refill_after_timeout]
+    | wouldBlock => simp only [readWhole, check_reserve, hc, refill_after_timeout (check_need_lt hc)]
+    | deliver k => simp only [readWhole, check_reserve, hc, refill_after_timeout (check_need_lt hc)]
 
-theorem recvWith_reserve {nd : Nat} : ∀ (evs : List Ev) (st : State) (w : World),
+theorem recvWith_reserve {nd : Nat} : ∀ (evs : List Ev) (st : State) (w : World), st.buf.length < nd →
     recvWith (reserve st nd) w nd evs = recvWith st w nd evs := by
   intro evs
   induction evs with
-  | nil => intro st w; simp only [recvWith, refill_after_timeout]
+  | nil => intro st w hlt; simp only [recvWith, refill_after_timeout hlt]
   | cons e evs ih =>
-    intro st w
+    intro st w hlt
     cases e with
-    | arrive a => simp only [recvWith]; exact ih st _
-    | wouldBlock => simp only [recvWith, refill_after_timeout]
-    | deliver k => simp only [recvWith, refill_after_timeout]
+    | arrive a => simp only [recvWith]; exact ih st _ hlt
+    | wouldBlock => simp only [recvWith, refill_after_timeout hlt]
+    | deliver k => simp only [recvWith, refill_after_timeout hlt]
 
 theorem step_reserve {st : State} {nd : Nat} (hc : check st = .need nd) (c : Call) (w : World)
     (evs : List Ev) : step c (reserve st nd) w evs = step c st w evs := by
@@ -409,16 +386,18 @@ theorem step_reserve {st : State} {nd : Nat} (hc : check st = .need nd) (c : Cal
   have hb' : bytesNeeded (reserve st nd).buf = .bytes nd := hb
   cases c with
   | getNext => simp only [step, getNext, readWhole_reserve evs st w hc]
-  | readOnce => simp only [step, readOnce, hb, hb', recvWith_reserve]
-  | readMore => simp only [step, readMore, check_reserve, hc, readOnce, hb, hb', recvWith_reserve]
+  | readOnce => simp only [step, readOnce, hb, hb', recvWith_reserve evs st w (check_need_lt hc)]
+  | readMore =>
+    simp only [step, readMore, check_reserve, hc, readOnce, hb, hb', recvWith_reserve evs st w (check_need_lt hc)]
 
 theorem step_nil_timedOut {st : State} {nd : Nat} (hc : check st = .need nd) (c : Call) (w : World) :
     step c st w [] = (.timedOut, reserve st nd, w) := by
   have hb := check_need_bytes hc
+  have hlt := check_need_lt hc
   cases c with
-  | getNext => simp only [step, getNext, readWhole, hc, refill_k0]
-  | readOnce => simp only [step, readOnce, hb, recvWith, refill_k0]
-  | readMore => simp only [step, readMore, hc, readOnce, hb, recvWith, refill_k0]
+  | getNext => simp only [step, getNext, readWhole, hc, refill_k0 hlt]
+  | readOnce => simp only [step, readOnce, hb, recvWith, refill_k0 hlt]
+  | readMore => simp only [step, readMore, hc, readOnce, hb, recvWith, refill_k0 hlt]
 
 theorem run_reserve_trace {nd : Nat} : ∀ (acts : List Action) (st : State) (w : World), check st = .need nd →
     (run (reserve st nd) w acts).1 = (run st w acts).1 := by
@@ -430,6 +409,32 @@ theorem run_reserve_trace {nd : Nat} : ∀ (acts : List Action) (st : State) (w 
     cases a with
     | arrive n => simp only [run]; exact ih st _ hc
     | call c evs => simp only [run, step_reserve hc]
+
+/-! ### `read_once` on a complete buffer (no assumption on the state or the stream) -/
+
+theorem check_whole_bytes {st : State} (h : check st = .whole) :
+    ∃ n, bytesNeeded st.buf = .bytes n ∧ n ≤ st.buf.length := by
+  unfold check at h
+  by_cases h16 : st.buf.length < 16
+  · rw [if_pos h16] at h; simp at h
+  · rw [if_neg h16] at h
+    cases hb : bytesNeeded st.buf with
+    | bytes n =>
+      rw [hb] at h
+      dsimp only at h
+      split at h
+      · exact ⟨n, rfl, by assumption⟩
+      · simp at h
+    | tooLong => rw [hb] at h; simp at h
+    | invalid => rw [hb] at h; simp at h
+
+/-- `read_once` although the buffer holds a complete message: `Ok(())`, the state is untouched, nothing is
+    taken from the socket (the only change of the world is what the peer makes arrive meanwhile) -/
+theorem readOnce_whole {st : State} (h : check st = .whole) (w : World) (evs : List Ev) :
+    readOnce st w evs = (.readOk, st, w.arrive (arrivals evs)) := by
+  obtain ⟨n, hb, hn⟩ := check_whole_bytes h
+  simp only [readOnce, hb]
+  exact recvWith_full evs st w hn
 
 /-! ### refused announcements -/
 
